@@ -82,7 +82,7 @@ def analyse_game(prop, sc, rewards, acc, thresholds=()):
             # termination on stopping games is C06's verdict; the other properties only need the result, so a run that
             # does not come back within the alarm is counted (and ends the shard early if it keeps happening), never judged
             gr = J.GameRun(sc, rewards, prune, confirm=False,
-                           outcome=Rn.solve(sc.game(rewards), prune, cpu_s=STOP_CPU, confirm=False))
+                           outcome=Rn.solve(sc.game(rewards), prune, cpu_s=STOP_CPU if max(rewards) < 50 else 10 * STOP_CPU, confirm=False))
             if gr.out.kind == "timeout":
                 acc["stopping_timeouts"] = acc.get("stopping_timeouts", 0) + 1
         else:
@@ -97,7 +97,11 @@ def analyse_game(prop, sc, rewards, acc, thresholds=()):
     if prop == "C06":
         for prune, gr in runs.items():
             acc["judged"] += 1
-            add(J.judge_c06(sc, gr), {"prune": prune})
+            for f6 in J.judge_c06(sc, gr):
+                if f6[0].startswith("KF-"):
+                    add_known([f6], {"prune": prune})
+                else:
+                    add([f6], {"prune": prune})
         if sc.vstar[0] == 0 or _multi_dead(sc):
             acc["nontrivial"] += 1
         return findings, known
@@ -341,7 +345,7 @@ def work(shard):
                 acc["truncated"] = 1
                 break
     elif kind == "games":
-        for game in _game_family(shard["family"], shard)[shard["lo"]:shard["hi"]]:
+        for game in family_slice(shard)[shard["lo"]:shard["hi"]]:
             sc = J.SCache(game["players"], game["transition_list"], game["final_states"])
             acc["structures"] += 1
             rewards = game["rewards"]
@@ -370,6 +374,9 @@ def _game_family(name, shard):
             _FAMILIES[key] = [U.U_F_build(c, shard.get("focus_reward", 1))[0] for c in U.U_F_cases(shard["max_deg"])]
         elif name == "U-D":
             _FAMILIES[key] = U.U_D_games()
+        elif name in ("U-E", "U-C", "U-L", "U-R", "U-P2", "U-N"):
+            _FAMILIES[key] = {"U-E": U.U_E_games, "U-C": U.U_C_games, "U-L": U.U_L_games, "U-R": U.U_R_games,
+                              "U-P2": U.U_P2_games, "U-N": U.U_N_games}[name]()
         elif name == "U-X":
             from .inputs import small_example_games
             _FAMILIES[key] = small_example_games()
@@ -378,8 +385,15 @@ def _game_family(name, shard):
     return _FAMILIES[key]
 
 
+def family_slice(shard):
+    fam = _game_family(shard["family"], shard)
+    if shard.get("stride", 1) > 1:
+        fam = fam[shard.get("offset", 0) % shard["stride"]::shard["stride"]]
+    return fam
+
+
 def family_size(name, **kw):
-    return len(_game_family(name, kw))
+    return len(family_slice(dict(kw, family=name)))
 
 
 # -------------------------------------------------------------------------------------------------- plans
@@ -402,13 +416,14 @@ def universe_shards(prop, name, jobs, rewards="ones", frac=None, seed=0, thresho
 
 
 def family_shards(prop, name, jobs, **kw):
+    """kw may contain stride / offset: every stride-th member of the family starting at offset (VERIF_SEED rotates the offset)"""
     size = family_size(name, **kw)
     shards = []
     for a, b in par.ranges(size, jobs * 6):
         sh = {"kind": "games", "prop": prop, "family": name, "lo": a, "hi": b}
         sh.update(kw)
         shards.append(sh)
-    return shards, dict({"universe": name, "size": size, "fraction": "all"}, **kw)
+    return shards, dict({"universe": name, "size": size, "fraction": "all" if kw.get("stride", 1) == 1 else "every %d-th member" % kw["stride"]}, **kw)
 
 
 def run_plan(ctx, prop, parts, rule, assumptions, kf_what=None, vacuity=None):
